@@ -319,8 +319,10 @@ class ProgressBar(object):
         # Append whitespace to match the line's length
         if self._last_messages_length is not None:
             for i, line in enumerate(lines):
-                if self._last_messages_length > len(self._io.remove_format(line)):
-                    lines[i] = line.ljust(self._last_messages_length, "\x20")
+                # pad by the visible length: tags take no room on the screen
+                length = len(self._io.remove_format(line))
+                if self._last_messages_length > length:
+                    lines[i] = line + "\x20" * (self._last_messages_length - length)
 
         if self._should_overwrite:
             if isinstance(self._io, SectionOutput):
